@@ -10,7 +10,7 @@ static const uint64_t DUR[] = { 0, 1, 999999, 1 * MS, 50 * MS, 2147483647ULL * M
 static qb_loop_t *L;
 static int part, depth, max_timers;
 static struct tm_s { int live, fired, deleted, prio, seq; uint64_t added, dur, expiry, fired_at; qb_loop_timer_handle h; } TM[MAXT];
-static int ntm, fire_seq, jobs_pending, job_ever;
+static int ntm, fire_seq, jobs_pending, job_ever, stop_in_cb;
 static uint64_t stop_at;
 static int horizon_iters;
 
@@ -35,6 +35,9 @@ static void timer_cb(void *data)
 	t->fired = 1; t->fired_at = vnow; t->seq = fire_seq++;
 	vp_log("  t=%llu: timer %d fires (expiry %llu)", (unsigned long long)vnow, (int)(t - TM), (unsigned long long)t->expiry);
 	if (qb_loop_timer_is_running(L, t->h)) vp_fail("is_running reports a timer that has just fired as pending");
+	/* the application stops the loop from a HIGH callback: whatever was queued for lower levels in this iteration stays queued,
+	   and the next qb_loop_run has to get to it without waiting */
+	if (stop_in_cb && t->prio == 2) { vp_log("  (callback calls qb_loop_stop)"); qb_loop_stop(L); }
 }
 static void job_cb(void *d) { (void)d; jobs_pending--; }
 
@@ -99,7 +102,7 @@ static void run(void)
 {
 	int i;
 	vnow = 1000000000ULL; loop_iterations = 0; blocked_forever = 0; rnd_ctr = 0;
-	ntm = 0; fire_seq = 0; jobs_pending = 0; job_ever = 0;
+	ntm = 0; fire_seq = 0; jobs_pending = 0; job_ever = 0; stop_in_cb = 0;
 	L = qb_loop_create();
 	if (part == 0) {
 		int n = 1 + vp_choose(max_timers, "number of timers"), withjob = vp_choose(2, "job queued too");
@@ -140,13 +143,14 @@ static void run(void)
 	} else {
 		int step;
 		horizon_iters = 400;
+		stop_in_cb = vp_choose(2, "HIGH timer callbacks stop the loop");
 		for (step = 0; step < depth; step++) {
 			int live[MAXT], nl = 0, c;
 			for (i = 0; i < ntm; i++) if (TM[i].live && !TM[i].fired && !TM[i].deleted) live[nl++] = i;
 			c = vp_choose(3 + 3 + 1, "heap op");
 			if (c < 3) {
 				if (ntm >= MAXT) { vp_pruned(); break; }
-				add_timer((uint64_t)(c + 1) * 10 * MS, 1);
+				add_timer((uint64_t)(c + 1) * 10 * MS, c == 0 ? 0 : c == 1 ? 1 : 2);      /* 10 ms timers at LOW, 20 ms at MED, 30 ms at HIGH */
 			} else if (c < 6) {
 				int k = c - 3, id; int32_t r;
 				if (k >= nl) { vp_pruned(); break; }
@@ -165,7 +169,7 @@ static void run(void)
 				final_checks();
 			}
 		}
-		run_loop_until(~0ULL);
+		{ int guard = 0; do run_loop_until(~0ULL); while (stop_in_cb && pending_count() && ++guard < 12); }
 	}
 	final_checks();
 	{ uint64_t h = 0; for (i = 0; i < ntm; i++) h = h * 131 + (uint64_t)(TM[i].fired ? TM[i].seq + 1 : 0) + 7 * (uint64_t)TM[i].deleted; vp_outcome_u64(h); vp_state(h ^ vnow); }
